@@ -197,6 +197,45 @@ open WinTree (Id Win Req Change Tree)
 
 /-! ## closing a child and dropping its reference -/
 
+/-- The converse of `DropOk`: a window other than `x` that survives a cascade and is not among the dropped children
+    keeps its count. -/
+def ConvOk (t t' : Tree) (x : Nat) (dropped : List Nat) : Prop :=
+  ∀ (i : Nat) (w w' : Win), i ≠ x → t.wins[i]? = some w → t'.wins[i]? = some w' → w'.freed = false → i ∉ dropped →
+    w'.refcount = w.refcount
+
+theorem ConvOk.nil_of_same {t t' : Tree} {x : Nat} (h : ∀ (i : Nat) (w w' : Win), i ≠ x → t.wins[i]? = some w → t'.wins[i]? = some w' →
+    w'.refcount = w.refcount) : ConvOk t t' x [] := fun i w w' hix hw hw' _ _ => h i w w' hix hw hw'
+
+theorem ConvOk.append {a b c : Tree} {x : Nat} {d1 d2 : List Nat} (e1 : TEv a b) (e2 : TEv b c)
+    (h1 : ConvOk a b x d1) (h2 : ConvOk b c x d2) : ConvOk a c x (d1 ++ d2) := by
+  intro i wa wc hix ha hc hf hni
+  obtain ⟨wb, hb, ev1⟩ := e1.2 i wa ha
+  obtain ⟨wc', hc', ev2⟩ := e2.2 i wb hb
+  rw [hc] at hc'; cases hc'
+  have hfb : wb.freed = false := by
+    cases hfb : wb.freed with
+    | false => rfl
+    | true => rw [ev2.1 hfb] at hf; cases hf
+  simp only [List.mem_append, not_or] at hni
+  rw [h2 i wb wc hix hb hc hf hni.2, h1 i wa wb hix ha hb hfb hni.1]
+
+/-- Every parent link of `t'` is one of `t`: a cascade only unlinks. -/
+def PSub (t t' : Tree) : Prop :=
+  ∀ (i : Nat) (w' : Win) (p : Nat), t'.wins[i]? = some w' → w'.parent = some p → ∃ w, t.wins[i]? = some w ∧ w.parent = some p
+
+theorem PSub.refl (t : Tree) : PSub t t := fun _ w p hw hp => ⟨w, hw, hp⟩
+
+theorem PSub.trans {a b c : Tree} (h1 : PSub a b) (h2 : PSub b c) : PSub a c := by
+  intro i w p hw hp
+  obtain ⟨wb, hwb, hpb⟩ := h2 i w p hw hp
+  exact h1 i wb p hwb hpb
+
+theorem PSub.of_wins {t t' : Tree} (h : t'.wins = t.wins) : PSub t t' := fun i w p hw hp => ⟨w, by rw [← h]; exact hw, hp⟩
+
+/-- A chain of parents in the later tree is one in the earlier tree. -/
+theorem PSub.reach {t t' : Tree} (h : PSub t t') {i a : Nat} (hr : Reach t' i a) : Reach t i a :=
+  Reach.mono (fun i w p hw hp => h i w p hw hp) hr
+
 theorem wev_of_fields {w w' : Win} (hf : w'.freed = w.freed) (hr : w'.refcount = w.refcount)
     (hc : w.isClosed = true → w'.isClosed = true) : WEv w w' :=
   ⟨fun h => by rw [hf]; exact h, fun _ h => by rw [hr]; exact h, fun _ => .inl hr, hc⟩
@@ -357,8 +396,12 @@ structure Casc (t t' : Tree) (x : Nat) (xw : Win) (dead dropped : List Nat) : Pr
   freed : ∃ w', t'.wins[x]? = some w' ∧ w'.freed = true
   below : ∀ (i : Nat) (w : Win), i < x → t.wins[i]? = some w →
     (xw.parent ≠ some i ∧ t'.wins[i]? = some w) ∨ (xw.parent = some i ∧ t'.wins[i]? = some (unlinkedParent w x))
+  psub : PSub t t'
+  /-- whatever dies or loses a reference lies below `x` -/
+  reach : ∀ (i : Nat), i ∈ dead ∨ i ∈ dropped → Reach t i x
   dead : DeadOk t t' dead
   drop : DropOk t t' x dropped
+  conv : ConvOk t t' x dropped
   req_sub : ∀ r ∈ t'.root.changes, r ∈ t.root.changes
   drag_sub : ∀ (s : Nat), t'.root.dragSource = some s → t.root.dragSource = some s
 
@@ -373,7 +416,8 @@ theorem destroy_child_step {cfg : Cfg} (h1 : cfg.closePurges = true) (h2 : cfg.d
     {tk : Tree} (inv : TInv tk) {x c : Nat} {xk : Win} (hx : LiveW tk x xk) (hc : c ∈ xk.children)
     (hrc : RCabove tk x) (hsize : tk.wins.size + 1 ≤ fuel + 1 + x) (deadk dropk : List Nat) :
     ∃ t2 dc dr, destroyStep cfg (unrefTWith (destroyT cfg fuel)) (tk, deadk, dropk) c = .ok (t2, deadk ++ dc, dropk ++ dr) ∧
-      TInv t2 ∧ TEv tk t2 ∧ DeadOk tk t2 dc ∧ DropOk tk t2 x dr ∧ RCabove t2 x ∧
+      TInv t2 ∧ TEv tk t2 ∧ DeadOk tk t2 dc ∧ DropOk tk t2 x dr ∧ ConvOk tk t2 x dr ∧
+      (PSub tk t2 ∧ ∀ (i : Nat), i ∈ dc ∨ i ∈ dr → Reach tk i x) ∧ RCabove t2 x ∧
       t2.wins[x]? = some (unlinkedParent xk c) ∧
       (∀ (i : Nat) (w : Win), i < x → tk.wins[i]? = some w → t2.wins[i]? = some w) ∧
       (∀ r ∈ t2.root.changes, r ∈ tk.root.changes) ∧
@@ -406,6 +450,25 @@ theorem destroy_child_step {cfg : Cfg} (h1 : cfg.closePurges = true) (h2 : cfg.d
     rcases hothers i w hic hw with ⟨hxi, h⟩ | ⟨hxi, h⟩
     · exact ⟨w, h, rfl, rfl, rfl, fun _ => rfl⟩
     · exact ⟨_, h, rfl, rfl, rfl, fun hne => absurd hxi.symm hne⟩
+  have psubI : PSub tk (WinTree.set t1 c (droppedChild cw)) := by
+    intro i w' p hw' hp'
+    by_cases hic : i = c
+    · subst hic
+      rw [hl1'.1] at hw'; cases hw'
+      cases hp'
+    · cases htk : tk.wins[i]? with
+      | none =>
+        have hlt : ¬ i < tk.wins.size := by
+          intro hlt
+          have := Array.getElem?_eq_getElem (xs := tk.wins) hlt
+          rw [htk] at this; cases this
+        have : (WinTree.set t1 c (droppedChild cw)).wins[i]? = none := Array.getElem?_eq_none (by rw [hsz1]; omega)
+        rw [hw'] at this; cases this
+      | some w0 =>
+        rcases hothers i w0 hic htk with ⟨_, h⟩ | ⟨_, h⟩
+        · rw [hw'] at h; cases h; exact ⟨w', rfl, hp'⟩
+        · rw [hw'] at h; cases h; exact ⟨w0, rfl, hp'⟩
+  have hreachc : Reach tk c x := .step hcl.1 hcp (.refl x)
   by_cases hz : cw.refcount - 1 = 0
   · -- last reference: the child is destroyed
     have hrc1 : RCabove (WinTree.set t1 c (droppedChild cw)) c := by
@@ -456,7 +519,25 @@ theorem destroy_child_step {cfg : Cfg} (h1 : cfg.closePurges = true) (h2 : cfg.d
           cases hw
           obtain ⟨h1', h2'⟩ := hcond w1' w' hw1' hw' hf'
           exact ⟨by omega, h2'⟩
-    refine ⟨t2, dc, c :: dr, by rw [hcomp]; simp only [hz, if_true, hd, bind_ok, pure_ok], C.inv, ?_, ?_, hdrop, ?_, ?_, ?_, ?_, ?_⟩
+    have hconv : ConvOk tk t2 x (c :: dr) := by
+      intro i w w' hix hw hw' hf hni
+      simp only [List.mem_cons, not_or] at hni
+      obtain ⟨w1, hw1, _, hr, _, _⟩ := hsame i w hni.1 hw
+      rw [C.conv i w1 w' hni.1 hw1 hw' hf hni.2, hr]
+    have hpr : PSub tk t2 ∧ ∀ (i : Nat), i ∈ dc ∨ i ∈ c :: dr → Reach tk i x := by
+      refine ⟨psubI.trans C.psub, ?_⟩
+      intro i hi
+      by_cases hic : i = c
+      · subst hic; exact hreachc
+      · have : i ∈ dc ∨ i ∈ dr := by
+          rcases hi with h | h
+          · exact .inl h
+          · simp only [List.mem_cons] at h
+            rcases h with h | h
+            · exact absurd h hic
+            · exact .inr h
+        exact (psubI.reach (C.reach i this)).trans hreachc
+    refine ⟨t2, dc, c :: dr, by rw [hcomp]; simp only [hz, if_true, hd, bind_ok, pure_ok], C.inv, ?_, ?_, hdrop, hconv, hpr, ?_, ?_, ?_, ?_, ?_⟩
     · -- TEv tk t2
       refine ⟨C.ev.1.trans hsz1, ?_⟩
       intro i w hw
@@ -582,7 +663,19 @@ theorem destroy_child_step {cfg : Cfg} (h1 : cfg.closePurges = true) (h2 : cfg.d
       subst this
       rw [hl1'.1] at hw'; cases hw'
       exact ⟨by simp only [droppedChild]; omega, rfl⟩
-    refine ⟨WinTree.set t1 c (droppedChild cw), [], [c], by rw [hcomp]; simp only [hz, if_false, pure_ok, bind_ok], inv1', ?_, ?_, hdrop, ?_, hx1', ?_, hreq1, hdrag1⟩
+    have hconv : ConvOk tk (WinTree.set t1 c (droppedChild cw)) x [c] := by
+      intro i w w' hix hw hw' hf hni
+      simp only [List.mem_singleton] at hni
+      obtain ⟨w1, hw1, _, hr, _, _⟩ := hsame i w hni hw
+      rw [hw'] at hw1; cases hw1
+      exact hr
+    have hpr : PSub tk (WinTree.set t1 c (droppedChild cw)) ∧ ∀ (i : Nat), i ∈ ([] : List Nat) ∨ i ∈ [c] → Reach tk i x := by
+      refine ⟨psubI, ?_⟩
+      intro i hi
+      rcases hi with h | h
+      · cases h
+      · simp only [List.mem_singleton] at h; subst h; exact hreachc
+    refine ⟨WinTree.set t1 c (droppedChild cw), [], [c], by rw [hcomp]; simp only [hz, if_false, pure_ok, bind_ok], inv1', ?_, ?_, hdrop, hconv, hpr, ?_, hx1', ?_, hreq1, hdrag1⟩
     · refine ⟨hsz1, ?_⟩
       intro i w hw
       by_cases hic : i = c
@@ -641,7 +734,8 @@ theorem destroy_loop {cfg : Cfg} (h1 : cfg.closePurges = true) (h2 : cfg.dragFor
       TInv tk → LiveW tk x xk → xk.children = cs → RCabove tk x → tk.wins.size + 1 ≤ fuel + 1 + x →
       ∃ t' dead' drop', cs.foldlM (destroyStep cfg (unrefTWith (destroyT cfg fuel))) (tk, deadk, dropk) =
           .ok (t', deadk ++ dead', dropk ++ drop') ∧
-        TInv t' ∧ TEv tk t' ∧ DeadOk tk t' dead' ∧ DropOk tk t' x drop' ∧ RCabove t' x ∧
+        TInv t' ∧ TEv tk t' ∧ DeadOk tk t' dead' ∧ DropOk tk t' x drop' ∧ ConvOk tk t' x drop' ∧
+        (PSub tk t' ∧ ∀ (i : Nat), i ∈ dead' ∨ i ∈ drop' → Reach tk i x) ∧ RCabove t' x ∧
         (∃ xk', LiveW t' x xk' ∧ xk'.children = [] ∧ xk'.parent = xk.parent ∧ xk'.isClosed = xk.isClosed ∧
           xk'.isRoot = xk.isRoot) ∧
         (∀ (i : Nat) (w : Win), i < x → tk.wins[i]? = some w → t'.wins[i]? = some w) ∧
@@ -652,22 +746,30 @@ theorem destroy_loop {cfg : Cfg} (h1 : cfg.closePurges = true) (h2 : cfg.dragFor
   | nil =>
     intro tk deadk dropk xk inv hx hcs hrc _
     refine ⟨tk, [], [], by simp [List.foldlM], inv, TEv.refl tk, DeadOk.nil (TEv.refl tk) (fun i w h => ⟨w, h⟩),
-      DropOk.nil _ _ _, hrc,
+      DropOk.nil _ _ _, ConvOk.nil_of_same (fun i w w' _ hw hw' => by rw [hw] at hw'; cases hw'; rfl),
+      ⟨PSub.refl tk, fun i hi => by rcases hi with h | h <;> cases h⟩, hrc,
       ⟨xk, hx, hcs, rfl, rfl, rfl⟩, fun _ _ _ h => h, fun _ h => h, fun _ h => h⟩
   | cons c rest ih =>
     intro tk deadk dropk xk inv hx hcs hrc hsize
     have hc : c ∈ xk.children := by rw [hcs]; simp
-    obtain ⟨t2, dc, dr, hstep, inv2, ev2, dead2, drop2, hrc2, hx2, hbelow2, hreq2, hdrag2⟩ :=
+    obtain ⟨t2, dc, dr, hstep, inv2, ev2, dead2, drop2, conv2, ⟨psub2, reach2⟩, hrc2, hx2, hbelow2, hreq2, hdrag2⟩ :=
       destroy_child_step h1 h2 h3 IH inv hx hc hrc hsize deadk dropk
     have hx2l : LiveW t2 x (unlinkedParent xk c) := ⟨hx2, hx.2⟩
     have hnd := inv.nodup x xk hx
     have hrest : (unlinkedParent xk c).children = rest := by
       simp only [unlinkedParent, hcs]
       exact List.erase_cons_head c rest
-    obtain ⟨t', dead', drop', hfold, inv', ev', deadok', dropok', hrc', ⟨xk', hxl', hch', hp', hcl', hr'⟩, hbelow', hreq', hdrag'⟩ :=
+    obtain ⟨t', dead', drop', hfold, inv', ev', deadok', dropok', convok', ⟨psub', reach'⟩, hrc', ⟨xk', hxl', hch', hp', hcl', hr'⟩, hbelow', hreq', hdrag'⟩ :=
       ih t2 (deadk ++ dc) (dropk ++ dr) (unlinkedParent xk c) inv2 hx2l hrest hrc2 (by rw [ev2.1]; exact hsize)
     refine ⟨t', dc ++ dead', dr ++ drop', ?_, inv', ev2.trans ev', DeadOk.append ev2 ev' dead2 deadok',
-      DropOk.append ev2 ev' drop2 dropok', hrc',
+      DropOk.append ev2 ev' drop2 dropok', ConvOk.append ev2 ev' conv2 convok',
+      ⟨psub2.trans psub', fun i hi => by
+        simp only [List.mem_append] at hi
+        rcases hi with (h | h) | (h | h)
+        · exact reach2 i (.inl h)
+        · exact psub2.reach (reach' i (.inl h))
+        · exact reach2 i (.inr h)
+        · exact psub2.reach (reach' i (.inr h))⟩, hrc',
       ⟨xk', hxl', hch', hp', hcl', hr'⟩, ?_, fun r hr => hreq2 r (hreq' r hr), fun s hs => hdrag2 s (hdrag' s hs)⟩
     · rw [List.foldlM_cons, hstep]
       simp only [bind_ok]
@@ -701,7 +803,7 @@ theorem destroyT_ok {cfg : Cfg} (h1 : cfg.closePurges = true) (h2 : cfg.dragForg
     have := hl.lt; omega
   | succ fuel IH =>
     intro t x xw inv hl hsz hrc
-    obtain ⟨tL, deadL, dropL, hfold, invL, evL, deadokL, dropokL, _, ⟨xL, hxL, hchL, hpL, hclL, hrL⟩, hbelowL, hreqL, hdragL⟩ :=
+    obtain ⟨tL, deadL, dropL, hfold, invL, evL, deadokL, dropokL, convokL, ⟨psubL, reachL⟩, _, ⟨xL, hxL, hchL, hpL, hclL, hrL⟩, hbelowL, hreqL, hdragL⟩ :=
       destroy_loop h1 h2 h3 IH x xw.children t [] [] xw inv hl rfl hrc (by omega)
     -- purge (only when still linked), then close (only when not yet closed)
     have stepP : ∃ tP, purgeIfLinked cfg tL x xL = .ok tP ∧ tP.wins = tL.wins ∧ TInv tP ∧
@@ -764,7 +866,41 @@ theorem destroyT_ok {cfg : Cfg} (h1 : cfg.closePurges = true) (h2 : cfg.dragForg
         rcases hothersC i w hix (by rw [hPw]; exact hw) with ⟨_, h⟩ | ⟨_, h⟩
         · exact ⟨w, h, WEv.refl w⟩
         · exact ⟨_, h, wev_of_fields rfl rfl id⟩
-    refine ⟨_, deadL ++ [x], dropL, ?_, invF, ?_, ?_, ?_, ?_, ?_, ?_, ?_⟩
+    have convF : ConvOk tL (WinTree.set (rootCleanupIf cfg tC xC) x { xC with freed := true }) x [] := by
+      refine ConvOk.nil_of_same ?_
+      intro i w w' hix hw hw'
+      rw [set_get_ne _ (Ne.symm hix), hRw] at hw'
+      rcases hothersC i w hix (by rw [hPw]; exact hw) with ⟨_, h⟩ | ⟨_, h⟩
+      · rw [hw'] at h; cases h; rfl
+      · rw [hw'] at h; cases h; rfl
+    have psubF : PSub tL (WinTree.set (rootCleanupIf cfg tC xC) x { xC with freed := true }) := by
+      intro i w' p hw' hp'
+      by_cases hix : i = x
+      · subst hix
+        rw [set_get_self _ hxR.lt] at hw'; cases hw'
+        have : xC.parent = some p := hp'
+        rw [hpC] at this; cases this
+      · rw [set_get_ne _ (Ne.symm hix), hRw] at hw'
+        cases htl : tL.wins[i]? with
+        | none =>
+          have hlt : ¬ i < tL.wins.size := by
+            intro hlt
+            have := Array.getElem?_eq_getElem (xs := tL.wins) hlt
+            rw [htl] at this; cases this
+          have : tC.wins[i]? = none := Array.getElem?_eq_none (by rw [hCsz, hPw]; omega)
+          rw [hw'] at this; cases this
+        | some w0 =>
+          rcases hothersC i w0 hix (by rw [hPw]; exact htl) with ⟨_, h⟩ | ⟨_, h⟩
+          · rw [hw'] at h; cases h; exact ⟨w', rfl, hp'⟩
+          · rw [hw'] at h; cases h; exact ⟨w0, rfl, hp'⟩
+    have reachF : ∀ (i : Nat), i ∈ deadL ++ [x] ∨ i ∈ dropL → Reach t i x := by
+      intro i hi
+      simp only [List.mem_append, List.mem_singleton] at hi
+      rcases hi with (h | h) | h
+      · exact reachL i (.inl h)
+      · subst h; exact .refl _
+      · exact reachL i (.inr h)
+    refine ⟨_, deadL ++ [x], dropL, ?_, invF, ?_, ?_, ?_, psubL.trans psubF, reachF, ?_, ?_, ?_, ?_, ?_⟩
     · unfold destroyT destroyTWith
       simp only [get_live hl, bind_ok, hfold, List.nil_append, get_live hxL, hP, get_live hxP, hC, get_live hxC, pure_ok]
     · -- TEv
@@ -808,6 +944,8 @@ theorem destroyT_ok {cfg : Cfg} (h1 : cfg.closePurges = true) (h2 : cfg.dragForg
       · exact ⟨w, h, rfl⟩
       · exact ⟨_, h, rfl⟩
     · have := DropOk.append evL evF0 dropokL (DropOk.nil _ _ x)
+      simpa using this
+    · have := ConvOk.append evL evF0 convokL convF
       simpa using this
     · intro r hr
       exact hreqL r (hreqP r (hreqC r (hreqR r hr)))
